@@ -210,6 +210,38 @@ package kvql
 //@   ensures[C15] wf: wfParser(p) && p.pos >= old(p.pos)
 //@   atreturn set lvl(ret) := ite(err == nil, 6, lvl(ret))
 //
+// LIMIT clause (property C08): the two documented forms. With b the index of the token behind
+// `limit`: `limit n` (a number, then neither a number nor a separator) gives Start = 0, Count = n;
+// `limit s, n` (number, separator, number, then neither) gives Start = s, Count = n. The numbers
+// are the tokens' decimal values (strconv.ParseInt: T-STD, parseInt). cur(p) is the index of the
+// current token (the number of tokens at the end of input).
+//@ define curTok(p *Parser) Int = ite(p.tok == nil, p.numToks, p.pos - 1)
+//@ define isNumTok(p *Parser, j Int) Bool = 0 <= j && j < len(p.toks) && p.toks[j].Tp == NUMBER
+//@ define isSepTok(p *Parser, j Int) Bool = 0 <= j && j < len(p.toks) && p.toks[j].Tp == SEP
+//@ define isEndTok(p *Parser, j Int) Bool = j >= len(p.toks) || (0 <= j && p.toks[j].Tp != NUMBER && p.toks[j].Tp != SEP)
+//@ define numOf(p *Parser, j Int) Int = ite(parseIntOk(val(p.toks[j].Data)), parseInt(val(p.toks[j].Data)), 0)
+//@ define limit1(p *Parser, b Int) Bool = isNumTok(p, b) && isEndTok(p, b + 1)
+//@ define limit2(p *Parser, b Int) Bool = isNumTok(p, b) && isSepTok(p, b + 1) && isNumTok(p, b + 2) && isEndTok(p, b + 3)
+//
+//@ func (p *Parser) parseLimit() (ret *LimitStmt, err error)
+//@   props C08
+//@   requires wfParser(p) && p.tok != nil && p.tok.Tp == LIMIT
+//@   assigns p.tok, p.pos
+//@   ensures[C08] one: limit1(p, old(p.pos)) ==> err == nil && ret != nil && ret.Start == 0 && ret.Count == numOf(p, old(p.pos))
+//@   ensures[C08] two: limit2(p, old(p.pos)) ==> err == nil && ret != nil && ret.Start == numOf(p, old(p.pos)) && ret.Count == numOf(p, old(p.pos) + 2)
+//@   ensures[C08] shape: err == nil ==> ret != nil && fresh(ret)
+//@   ensures wf: wfParser(p)
+//@   loop 0
+//@     invariant wfParser(p) && (p.tok == nil ==> p.pos == p.numToks) && curTok(p) >= old(p.pos) && fresh(exprs) && fresh(ret) && ret != nil && ret.Start == 0 && ret.Count == 0
+//@     invariant brk: shouldBreak ==> p.tok != nil && p.tok.Tp != NUMBER && p.tok.Tp != SEP
+//@     invariant nn: forall q Int :: 0 <= q && q < len(exprs) ==> exprs[q] != nil && fresh(exprs[q])
+//@     invariant[C08] i1: curTok(p) == old(p.pos) ==> len(exprs) == 0
+//@     invariant[C08] i2: curTok(p) == old(p.pos) + 1 && isNumTok(p, old(p.pos)) ==> len(exprs) == 1 && exprs[0].Int == numOf(p, old(p.pos))
+//@     invariant[C08] i3: curTok(p) == old(p.pos) + 2 && isNumTok(p, old(p.pos)) && isSepTok(p, old(p.pos) + 1) ==> len(exprs) == 1 && exprs[0].Int == numOf(p, old(p.pos))
+//@     invariant[C08] i4: curTok(p) == old(p.pos) + 3 && isNumTok(p, old(p.pos)) && isSepTok(p, old(p.pos) + 1) && isNumTok(p, old(p.pos) + 2) ==> len(exprs) == 2 && exprs[0].Int == numOf(p, old(p.pos)) && exprs[1].Int == numOf(p, old(p.pos) + 2)
+//@     invariant[C08] j1: limit1(p, old(p.pos)) ==> curTok(p) <= old(p.pos) + 1
+//@     invariant[C08] j2: limit2(p, old(p.pos)) ==> curTok(p) <= old(p.pos) + 3
+//
 // ---------------------------------------------------------------------------------------------
 // Lexer (property C16): every token carries the offset at which its text begins and exactly that
 // text (case-folded for words), quoted literals are the bytes between their two quote characters.
